@@ -94,6 +94,13 @@ def gen_cases(ctx):
             yield {"tc": None, "tr": 1.2, "traffic": tf, "cb": True, "raise_at": raise_at,
                    "progress": [[0.1, "right", 0], [0.5, "foreign", 1], [0.5, "right", 2],
                                 [0.9, "right_total_msg", 3], [1.1, "right_missing", 4], [1.3, "right", 5]]}
+    # 3b. the caller's params object has a history: it was used for an earlier request (a retry with the same dict),
+    #     already carries a _meta member, or already carries a progressToken of the caller's choosing
+    for mode in ("reused", "reused_twice", "own_meta", "own_token", "own_token_int", "none_params"):
+        for tf in ("none", traffics[-1]):
+            for tr in (1.2, None):
+                yield {"tc": None, "tr": tr, "traffic": tf, "cb": True, "raise_at": None, "params_mode": mode,
+                       "progress": [[0.1, "right", 0], [0.5, "foreign", 1], [0.5, "right", 2], [0.9, "right_total_msg", 3]]}
     # 4. callback registered but no progress; cancellation with callback
     for tc in (None, "pre", 0.7):
         yield {"tc": tc, "tr": 1.0, "traffic": "none", "progress": [], "raise_at": None, "cb": True}
@@ -171,10 +178,35 @@ def exec_case(ctx, case: Dict[str, Any]) -> None:
         async def drain():
             return
 
+        pm = case.get("params_mode")
+        params: Any = {"name": "slow"}
+        if pm == "own_meta":
+            params["_meta"] = {"caller": "keeps this"}
+        elif pm == "own_token":
+            params["_meta"] = {"progressToken": "chosen-by-caller"}
+        elif pm == "own_token_int":
+            params["_meta"] = {"progressToken": 7, "x": None}
+        elif pm == "none_params":
+            params = None
+        elif pm in ("reused", "reused_twice"):
+            # the same dict object served an earlier, completed request (with progress reporting) on another connection
+            for _ in range(2 if pm == "reused_twice" else 1):
+                prime = Pipe(buffer=100)
+
+                async def prime_server():
+                    r = await prime.srv_recv.receive()
+                    prime.srv_send.send_nowait(parse_message({"jsonrpc": "2.0", "id": r.id, "result": {"primed": True}}))
+                ps = asyncio.create_task(prime_server(), name="prime-server")
+
+                async def cb0(progress, total, message):
+                    pass
+                await send_message(prime.read, prime.write, "tools/call", params, timeout=T, progress_callback=cb0)
+                await ps
+                prime.close()
         st = asyncio.create_task(server(), name="server")
         t0 = loop.time()
         try:
-            res = await send_message(pipe.read, pipe.write, "tools/call", {"name": "slow"},
+            res = await send_message(pipe.read, pipe.write, "tools/call", params,
                                      timeout=T, cancellation_token=token,
                                      progress_callback=cb if use_cb else None)
             obs["outcome"] = ("return", res)
